@@ -187,6 +187,54 @@ def unit_starts(item):
     return p
 
 
+def unit_starts_foreign(item):
+    """MTVRP reads the instance size from the instance itself, so that instances of another size than the environment's
+    generator was configured for (loaded data sets) can be decoded with multi-start: its start nodes must be feasible
+    and distinct for such instances too.  (The generic rule of the other environments takes the size from the
+    generator; for them this situation is outside the documented use and is not judged.)"""
+    _, skey, tier, seed = item
+    spec = ALL_SPECS[skey]
+    p = Partial()
+    env_name = skey.partition(":")[0]
+    insts = spec.instances("quick", seed)
+    groups = {}
+    for iid, inst in insts:
+        td = spec.td(inst)
+        groups.setdefault(shape_sig(td), []).append((iid, inst, td))
+    for g in groups.values():
+        g = [g[i] for i in E.pick_indices(len(g), 4)]
+        n = g[0][2]["locs"].shape[1] - 1
+        for env_n in (n - 1, n + 2):
+            if env_n < 2:
+                continue
+            env = spec.env({"locs": [0] * (env_n + 1)})
+            for B in (1, 2):
+                rows = g[:B]
+                if len(rows) < B:
+                    continue
+                tds = torch.cat([r[2] for r in rows], 0)
+                td = env.reset(tds.clone())
+                mask = td["action_mask"].reshape(B, -1)
+                for k in range(2, n + 1):
+                    rec = dict(kind="starts_foreign", spec=skey, env_size=env_n, instances=[dict(instance_id=r[0], instance=r[1]) for r in rows], k=k)
+                    try:
+                        sel = env.select_start_nodes(env.reset(tds.clone()), k).reshape(-1).tolist()
+                    except Exception as e:  # noqa: BLE001
+                        p.violation(sig(env_name, skey.partition(":")[2], f"crash:{type(e).__name__}", "foreign_size_instance"), rec, f"{skey}: select_start_nodes(k={k}) on {n}-customer instances with an environment configured for {env_n} crashed: {type(e).__name__}: {str(e)[:100]}")
+                        break
+                    p.add(states=1, transitions=1, evaluations=B)
+                    p.case(f"{skey}|foreign|{env_n}|{B}|{k}")
+                    for b in range(B):
+                        mine = [sel[i * B + b] for i in range(k)]
+                        feas = [a for a in range(1, mask.shape[1]) if mask[b, a]]
+                        if len(feas) < k:
+                            continue
+                        bad = [a for a in mine if not (0 < a < mask.shape[1] and mask[b, a])]
+                        if bad or len(set(mine)) != len(mine):
+                            p.violation(sig(env_name, skey.partition(":")[2], "infeasible_start" if bad else "duplicate_start", "foreign_size_instance"), rec, f"{skey}: instance {rows[b][0]} ({n} customers, {len(feas)} feasible first moves) decoded with an environment configured for {env_n} customers gets the forced starts {mine} (k={k})")
+    return p
+
+
 # ------------------------------------------------------------------------------------------- (c) policy multistart
 
 
@@ -290,7 +338,7 @@ def unit_policy(item):
 
 
 def unit(item):
-    return dict(ops=unit_ops, starts=unit_starts, policy=unit_policy)[item[0]](item)
+    return dict(ops=unit_ops, starts=unit_starts, policy=unit_policy, foreign=unit_starts_foreign)[item[0]](item)
 
 
 START_ENVS = ["tsp", "atsp", "cvrp", "cvrptw", "sdvrp", "svrp", "op:dist", "pctsp", "spctsp", "pdp", "pdp:depot", "mtsp:minmax", "mdcpdp:minsum:close:D1", "mtvrp:cvrp", "mtvrp:vrptw", "mtvrp:ovrpbltw", "smtwtp", "flp", "mcp", "ffsp:flat", "fjsp:mask", "jssp:mask"]
@@ -308,6 +356,7 @@ def main(tier):
     only = os.environ.get("VERIF_ONLY")
     items = [("ops",)]
     items += [("starts", k, tier, seed) for k in START_ENVS]
+    items += [("foreign", k, tier, seed) for k in ALL_SPECS if k.startswith("mtvrp:") and (tier == "thorough" or k in ("mtvrp:cvrp", "mtvrp:vrptw", "mtvrp:ovrpbltw"))]
     items += [("policy", k, tier, seed, ws) for k in POLICY_ENVS for ws in ((0,) if tier == "quick" else (0, 1))]
     if only:
         items = [i for i in items if only in str(i)]
@@ -319,6 +368,9 @@ def replay(rec):
     if rec["kind"] == "ops":
         p = unit_ops(("ops",))
         return bool(p.violations), "; ".join(v["msg"] for v in p.violations[:2]) or "ops grid holds"
+    if rec["kind"] == "starts_foreign":
+        p = unit_starts_foreign(("foreign", rec["spec"], "quick", 0))
+        return bool(p.violations), "; ".join(v["msg"] for v in p.violations[:2]) or "start nodes are feasible and distinct for foreign-size instances"
     spec = ALL_SPECS[rec["spec"]]
     rows = [(d["instance_id"], d["instance"], spec.td(d["instance"])) for d in rec["instances"]]
     env = spec.env(rows[0][1])
